@@ -90,6 +90,11 @@ class Pairs:
             f2["t"] = retarget(f2["t"], mp)
             ff.append(f2)
         self.defs[name] = struct(ff, init=init, unk=unk)
+        # the same schema however the Go struct is laid out: declaration order, position of the holder
+        if self.n % 3:
+            self.defs[name]["decl"] = [None, "rev", "shuf"][self.n % 3]
+        if unk:
+            self.defs[name]["unk_pos"] = ["last", "first", "middle"][(self.n // 3) % 3]
         self.pairs.append((wname, name, label))
         return name
 
@@ -158,6 +163,12 @@ def build_pairs(rng, quick=True):
                 if f[i]["req"] == "optional" and a["k"] in U.SCALARS:
                     f[i]["t"]["ptr"] = True
                 P.reader(wname, f, "retype%d-%s" % (wf[i]["id"], U.type_sig(a)), unk=(i % 2 == 1), mapping=mp)
+        # list <-> set with the same element type: different wire types, the field is not the reader's
+        for i in range(len(wf)):
+            if wf[i]["t"]["k"] in ("list", "set"):
+                f = copy.deepcopy(wf)
+                f[i]["t"]["k"] = "set" if wf[i]["t"]["k"] == "list" else "list"
+                P.reader(wname, f, "listset%d" % wf[i]["id"], unk=(i % 2 == 0), mapping=mp)
         # renumber
         for i in range(0, len(wf), 2):
             f = copy.deepcopy(wf)
@@ -215,6 +226,18 @@ def required_universe(ids=BOUNDARY_IDS):
     # wrong wire type must not count as present
     defs["TReqStr"] = struct([field(i, "required" if i in (64, 65535) else "default", T("string") if i in (64, 65535) else T("i32")) for i in ids])
     pairs.append(("WIds", "TReqStr", "reqwrongtype"))
+    for j, b in enumerate(ids):
+        if j % 3:
+            defs["TReq%d" % b]["decl"] = [None, "rev", "shuf"][j % 3]
+        if j % 2:
+            defs["TReq%d" % b]["fields"][0]["before"] = ["Untagged0 int32", "hidden0 string"]
+    defs["TReqAll"]["decl"] = "shuf"
+    defs["TReqAll"]["fields"][3]["before"] = ["Untagged1 []string"]
+    # a required container that arrives with the other container's wire type is missing
+    defs["WLs"] = struct([field(1, "default", SET(T("i32"))), field(2, "default", L(T("string"))), field(3, "default", T("i32"))])
+    defs["TLsR"] = struct([field(1, "required", L(T("i32"))), field(2, "required", SET(T("string"))), field(3, "required", T("i32"))])
+    defs["TLsR"]["decl"] = "rev"
+    pairs.append(("WLs", "TLsR", "listset-required"))
     # required fields at nested positions
     defs["WLeaf"] = struct([field(1, "optional", T("i32", True)), field(64, "optional", T("string", True))])
     defs["TLeafR"] = struct([field(1, "required", T("i32")), field(64, "required", T("string"))])
